@@ -39,15 +39,15 @@ func runC19(w *mon.Worker) {
 	}
 	// --- Unpad on arbitrary input
 	w.Case("unpad-small", map[string]any{"lens": "0..2"}, func(c *mon.Case) { unpadSmall(c, w.Idx, w.N) })
-	for i := 0; i < w.Share(w.Scale(400, 8000)); i++ {
+	for i := 0; i < w.Share(w.Scale(400, 24000)); i++ {
 		w.Case("unpad-random", map[string]any{"i": i}, func(c *mon.Case) { unpadRandom(c, 256) })
 	}
 	// --- common prefix
-	for i := 0; i < w.Share(w.Scale(4000, 100000)); i++ {
+	for i := 0; i < w.Share(w.Scale(4000, 300000)); i++ {
 		w.Case("prefix", map[string]any{"i": i}, func(c *mon.Case) { prefixCase(c, 50) })
 	}
 	// --- prng
-	for i := 0; i < w.Share(w.Scale(2000, 50000)); i++ {
+	for i := 0; i < w.Share(w.Scale(2000, 150000)); i++ {
 		w.Case("prng", map[string]any{"i": i}, func(c *mon.Case) { prngCase(c) })
 	}
 }
